@@ -1,11 +1,14 @@
 #!/bin/bash
-# Runs every thorough tier one after the other against the binaries already built in /verif/target,
-# writing evidence and replays under the current directory (used with `vp run`; not a registered check).
-export BWMC_VERIF_DIR=$PWD BWMC_BIN=/verif/target/release/blockwatch
+# Runs every thorough tier one after the other on private copies of the binaries currently built
+# in /verif/target, writing evidence and replays under the current directory (used with `vp run`
+# for long background runs; not a registered check — the registered thorough commands are
+# `./check <ID> --tier thorough`, which rebuild from /repo).
+mkdir -p bin && cp /verif/target/release/bwmc /verif/target/release/blockwatch bin/ || exit 2
+export BWMC_VERIF_DIR=$PWD BWMC_BIN=$PWD/bin/blockwatch
 cp /verif/known_findings.json . 2>/dev/null
 for id in ${@:-C01 C02 C03 C04 C05 C06 C07 C08 C09 C10 C11 C12 C13 C14 C15 C16 C17 C18 C19 C20}; do
   start=$(date +%s)
-  /verif/target/release/bwmc $id --tier thorough > out-$id.log 2>&1; code=$?
+  bin/bwmc $id --tier thorough > out-$id.log 2>&1; code=$?
   echo "$id exit=$code wall=$(( $(date +%s) - start ))s $(grep -c '^VIOLATION' out-$id.log) violations; $(tail -1 out-$id.log | cut -c1-160)"
   grep '^VIOLATION\|^MACHINERY' out-$id.log | head -5
 done
